@@ -70,13 +70,13 @@ def run(ctx, prog, res):
     work = [root]
     while work:
         a = work.pop()
-        if a in seen or a not in prog.adts:
+        if a in seen or a not in prog.adts or prog.adts[a].get("foreign"):
             continue
         seen.add(a)
         for v in prog.adts[a]["variants"]:
             for fld in v["fields"]:
                 for other in prog.adts:
-                    if other in fld["ty"] and other not in seen:
+                    if other in fld["ty"] and other not in seen and not prog.adts[other].get("foreign"):
                         work.append(other)
     for a in sorted(seen):
         for tr in ("core::cmp::PartialEq", "core::cmp::Eq", "core::hash::Hash"):
@@ -91,7 +91,7 @@ def run(ctx, prog, res):
     r4 = res.rule("C13.R4", "structural conditions a second normalization pass relies on (shared with C07): every emitted rule marks its days as covered; is_val is a sound universal check")
     import c07
     sub = lib.Result("C13")
-    c07.run(ctx, prog, sub)
+    c07.run(ctx, prog, sub)  # MIR rules only (C07 has no witnesses)
     for v in sub.violations:
         if v["rule"] in ("C07.R5", "C07.R6"):
             r4.fail(v["key"].replace("C07.", "C13.R4:"), v["message"], v["where"])
